@@ -264,6 +264,7 @@ func oracleC03(v *View, vd *Verdict) {
 		b2g := map[key]int{}
 		g2c := map[key]int{}
 		subCodes := map[uint16][]byte{} // msgid -> codes the broker sent
+		clientPings := 0                // client PINGREQs relayed to the broker
 		for i, e := range sv.Evs {
 			live := t.connected && !t.asleep && !t.brokerDown && !t.ended
 			switch {
@@ -329,6 +330,9 @@ func oracleC03(v *View, vd *Verdict) {
 						vd.Add("C03", "C03/translated-twice/"+p.Name(), "session %s: %s produced %d MQTT %s", sv.Name, p.String(), len(got), want.Name())
 					case len(got) == 1:
 						g := got[0]
+						if want.Type == refmqtt.PINGREQ {
+							clientPings++
+						}
 						if g.ID != want.ID {
 							vd.Add("C03", "C03/field-mismatch/msgid/"+p.Name(), "session %s: %s -> %s", sv.Name, p.String(), g.String())
 						}
@@ -398,6 +402,12 @@ func oracleC03(v *View, vd *Verdict) {
 		}
 		if t.ended || t.brokerDown {
 			continue // a terminating session may cut exchanges short
+		}
+		// PINGRESPs that answer pings the gateway sent on its own (sleep pinger, keep-alive on the
+		// client's behalf) are not owed to the client: at most one per relayed client PINGREQ is
+		pk := key{refmqtt.PINGRESP, 0}
+		if b2g[pk] > clientPings {
+			b2g[pk] = clientPings
 		}
 		for k, n := range b2g {
 			if g2c[k] != n {
